@@ -288,10 +288,10 @@ type ntFact struct {
 
 func ruleBNameTest(w *World, r *Report) {
 	r.rule("B-NAMETEST", "path enumeration of the node-test predicate: every path returning true carries (type test == node type, or type test == any) and, when the step has a name test (LocalName or Prefix non-empty), LocalName == n.LocalName() together with either Prefix == n.Prefix() or — only where the navigator exposes namespace URIs and the step has a bound URI — namespaceURI == NamespaceURL(); every path returning false carries a failed one of these; the URI of a prefixed step is set from the namespace map exactly when the prefix is bound")
-	var pred *ssa.Function
-	for _, cl := range w.sharedClosures() {
-		if w.isPredicateFuncType(cl.Signature) && cl.Parent() != nil && len(cl.FreeVars) >= 1 {
-			pred = cl
+	var pred, predFactory *ssa.Function
+	for _, ntp := range w.nodeTestPredicates() {
+		if ntp.Method || len(ntp.Fn.FreeVars) >= 1 {
+			pred, predFactory = ntp.Fn, ntp.Factory
 		}
 	}
 	if pred == nil {
@@ -436,7 +436,7 @@ func ruleBNameTest(w *World, r *Report) {
 		r.bad("B-NAMETEST", "paths", w.pos(pred.Pos()), fmt.Sprintf("%d accepting and %d rejecting paths", nT, nF))
 	}
 	// nametest definition in the factory
-	fac := pred.Parent()
+	fac := predFactory
 	okDef := false
 	eachInstr(fac, false, func(_ *ssa.Function, in ssa.Instruction) {
 		if phi, ok := in.(*ssa.Phi); ok && phi.Comment == "||" {
@@ -461,7 +461,10 @@ func ruleBNameTest(w *World, r *Report) {
 	rd := map[string]bool{}
 	eachInstr(fac, false, func(_ *ssa.Function, in ssa.Instruction) {
 		if fa, ok := in.(*ssa.FieldAddr); ok {
-			rd[fieldOfAddr(fa).Name()] = true
+			// fields of the step node the factory was given (not of an object it builds)
+			if len(fac.Params) > 0 && types.Identical(fa.X.Type(), fac.Params[0].Type()) {
+				rd[fieldOfAddr(fa).Name()] = true
+			}
 		}
 	})
 	if okDef && len(rd) == 2 {
@@ -518,6 +521,13 @@ func (w *World) ntDescribe(pred *ssa.Function, v ssa.Value, all int64) string {
 				}
 			}
 			if fa, ok := x.X.(*ssa.FieldAddr); ok {
+				// a bool field of the predicate's own receiver (the predicate written as
+				// a type with a match method): the name-test flag
+				if p, isParam := fa.X.(*ssa.Parameter); isParam && len(pred.Params) > 0 && p == pred.Params[0] && pred.Signature.Recv() != nil {
+					if b, ok := fieldOfAddr(fa).Type().Underlying().(*types.Basic); ok && b.Kind() == types.Bool {
+						return "nametest"
+					}
+				}
 				return "step." + fieldOfAddr(fa).Name()
 			}
 		}
